@@ -47,6 +47,8 @@ def canon_obj(x, string_na=False):
     if isinstance(x, (int, np.integer)):
         return ("N", int(x))
     if isinstance(x, (float, np.floating)):
+        if isinstance(x, np.longdouble) and x == x and np.longdouble(float(x)) != x:
+            return ("N", x)        # an extended-precision value that a double cannot hold: kept exactly
         x = float(x)
         return NA if x != x else ("N", x)
     if isinstance(x, str):
@@ -100,7 +102,7 @@ def col_cells(vec):
         return [NA if n else ("D", u) for n, u in zip(nat.tolist(), us)]
     if dt.kind == "f":
         return [NA if x != x else ("N", x) for x in arr.astype(np.float64).tolist()] \
-            if dt.itemsize <= 8 else [canon_obj(float(x)) for x in arr]
+            if dt.itemsize <= 8 else [canon_obj(x) for x in arr]
     if dt.kind in "iu":
         return [("N", x) for x in arr.tolist()]
     if dt.kind == "b":
